@@ -18,16 +18,20 @@ import json
 import selectors
 import time
 
-from .. import core
+from .. import core, server_ir
 from ..core import cz, clist, czlist
 
 ID = "C17"
 THEOREMS = ["C17_service_order_partial", "C17_answered_at_most_once_partial", "C17_answer_is_own_partial",
             "C17_no_loss_partial", "C17_quiescent_all_answered_partial", "C17_fifo_progress_partial",
             "C17_fifo_progress_tight_partial", "C17_in_batch_next_completion_partial", "C17_in_queue_second_completion_partial",
-            "C17_batch_order_fifo_partial", "C17_batch_size_bound_partial", "C17_bytes_roundtrip"]
-MODEL_TARGETS = ["model/Server.vo", "model/Harness.vo"]
+            "C17_batch_order_fifo_partial", "C17_batch_size_bound_partial", "C17_bytes_roundtrip",
+            "C17_server_ir_denotes_model", "C17_gather_timeout_is_1ms"]
+MODEL_TARGETS = ["gen/ServerIR.vo", "model/ServerDen.vo", "model/Server.vo", "model/Harness.vo"]
 TRUSTED_BASE = [
+    "harness/server_ir.py (fail-closed ast translator server.py/grpc.py -> gen/ServerIR.v); model/ServerDen.v recognises the loop "
+    "structure Server.step interprets and reads capacity, threshold, timeout and pairing from it (a recogniser with parameter "
+    "extraction, not a general semantics of Python coroutines)",
     "PARTIAL: the theorems cover every event sequence of the MODEL (model/Server.v); real thread scheduling, the gRPC "
     "transport and cancellation races are runtime behaviour outside it",
     "asyncio (CPython 3.12): Queue is FIFO, get/put wake exactly one waiter, callbacks run in timer order, wait_for restarts "
@@ -67,6 +71,22 @@ CTYPE_C = "list Z * list Z * list Z * Z * Z"
 CHECK_C = ("fun c => let '(ws, bytes, cws, v, cv) := c in zlist_eqb (encode_words ws) bytes && "
            "match decode_bytes bytes with Some d => zlist_eqb d cws | None => false end && zlist_eqb cws ws && (v =? cv)%Z")
 SHOW_C = "fun c => let '(ws, bytes, cws, v, cv) := c in (firstn 8 (encode_words ws), decode_bytes (firstn 8 bytes))"
+
+
+# --------------------------------------------------------------------------
+# translator tie
+# --------------------------------------------------------------------------
+def pregen(run):
+    try:
+        server_ir.regen(core.REPO)
+    except Exception as e:
+        # never leave a stale ServerIR.v behind: the proofs must not be re-checked against yesterday's code.
+        # The stub has no denotation: the model falls back to the scraped constants (so the schedules still
+        # run and can find a concrete failing input) and proofs/ServerTie.v:server_ir_denotes_model fails.
+        core.write_if_changed(core.COQ / "gen" / "ServerIR.v", server_ir.stub_text(str(e).replace("*)", "* )")[:300]))
+        raise
+    run.oblige("translate:Server.worker_loop+run_model / Server.Evaluate / Server.queue / GRPCNetwork.evaluate "
+               "-> gen/ServerIR.v", True)
 
 
 # --------------------------------------------------------------------------
